@@ -177,7 +177,33 @@ inline std::string scratchBase(const char *tag)
     }
     if (i < d.size()) cur += d[i];
   }
-  if (scratchDirs().empty()) std::atexit(removeScratchDirs);
+  if (scratchDirs().empty())
+  {
+    std::atexit(removeScratchDirs);
+    // a harness process that died in a sanitizer abort / watchdog _exit() could not clean up:
+    // remove sibling directories <tag>_<pid> whose process no longer exists
+    if (DIR *bd = ::opendir(base.c_str()))
+    {
+      std::vector<std::string> stale;
+      while (struct dirent *e = ::readdir(bd))
+      {
+        std::string n = e->d_name;
+        auto us = n.rfind('_');
+        if (us == std::string::npos || us == 0 || us + 1 >= n.size()) continue;
+        bool digits = true;
+        for (std::size_t i = us + 1; i < n.size(); ++i)
+          if (n[i] < '0' || n[i] > '9') digits = false;
+        if (!digits || n.compare(0, 1, "c") != 0) continue;
+        if (::access(("/proc/" + n.substr(us + 1)).c_str(), F_OK) != 0) stale.push_back(base + "/" + n);
+      }
+      ::closedir(bd);
+      for (auto &sd : stale)
+      {
+        wipeDir(sd);
+        ::rmdir(sd.c_str());
+      }
+    }
+  }
   scratchDirs().push_back(d);
   return d;
 }
